@@ -171,6 +171,12 @@ def main : IO Unit := do
     (vtag c v ++ s!" index={i}", showM (RsM.toModel (Gen.Fn.vec_remove c i (v, w0))), showM (V.remove c v i w0)))) out
   out := add (firstDiff "Vec::swap_remove" (vci.map fun (c, v, i) =>
     (vtag c v ++ s!" index={i}", showM (RsM.toModel (Gen.Fn.vec_swap_remove c i (v, w0))), showM (V.swapRemove c v i w0)))) out
+  out := add (firstDiff "Vec::truncate" (vci.map fun (c, v, i) =>
+    (vtag c v ++ s!" len={i}", showM (RsM.toModel (Gen.Fn.vec_truncate c i (v, w0))), showM (V.truncate c v i w0)))) out
+  out := add (firstDiff "Vec::extend_with" ((vci.flatMap fun (c, v, i) => [none, some 0, some 1].map fun cp => ({ c with clonePanicAt := cp }, v, i)).map fun (c, v, i) =>
+    (vtag c v ++ s!" clonePanicAt={repr c.clonePanicAt} n={i}", showM (RsM.toModel (Gen.Fn.vec_extend_with c i (el 9) (v, w0))), showM (V.extendWith c v i (el 9) w0)))) out
+  out := add (firstDiff "Vec::resize" ((vci.flatMap fun (c, v, i) => [none, some 0, some 1].map fun cp => ({ c with clonePanicAt := cp }, v, i)).map fun (c, v, i) =>
+    (vtag c v ++ s!" clonePanicAt={repr c.clonePanicAt} new_len={i}", showM (RsM.toModel (Gen.Fn.vec_resize c i (el 9) (v, w0))), showM (V.resize c v i (el 9) w0)))) out
   out := add (firstDiff "Vec::reserve" (vci.map fun (c, v, i) =>
     (vtag c v ++ s!" additional={i}", showM (RsM.toModel (Gen.Fn.vec_reserve c i (v, w0))),
       showM (match V.rawReserve c v v.len i with | some v' => (v', w0, some ()) | none => (v, w0, none))))) out
